@@ -39,6 +39,9 @@ ACTIVITIES = {
     "fds_closed_alive": ("import os, time\nchannel.send('started')\ntime.sleep(0.3)\nos.closerange(0, 256)\nwhile True:\n"
                          "    try:\n        time.sleep(0.05)\n    except KeyboardInterrupt:\n        pass\n"),
     "execv_sleep": "import os, time\nchannel.send('started')\ntime.sleep(0.3)\nos.execv('/bin/sleep', ['sleep', '1000'])\n",
+    # a service left behind: a callback registered on a channel whose object is gone, the body itself has returned
+    "callback_service": ("c = channel.gateway.newchannel()\nchannel.send(c)\nc.setcallback(lambda item: None)\ndel c\n"
+                         "c2 = channel.gateway.newchannel()\nc2.setcallback(lambda item: None, endmarker=None)\ndel c2\nchannel.send('started')\n"),
     "stopped": "channel.send('started')\nchannel.receive()\n",
     "killed": "channel.send('started')\nchannel.receive()\n",
 }
@@ -104,7 +107,7 @@ def main():
             ch = gws[g["id"]].remote_exec(src)
             chans.append(ch)
             first = ch.receive(30)
-            if act == "endmarker_raises":
+            if act in ("endmarker_raises", "callback_service"):
                 chans.append(first)  # the sub-channel whose remote end carries the failing callback
                 first = ch.receive(30)
             assert first == "started"
